@@ -4,7 +4,12 @@
          the Gaussian moment integral behind the both-on-centre closed form (Mathlib)
    C01c  the parity shortcuts are lossless: the type-2 table vanishes unless a + b = k + l + m (mod 2) (from the write
          pattern of the type-1 table), hence the stride-2 loop over lam2 equals the full double sum
+   C01d  the special routine for a shell on the ECP centre is the general contraction specialised (C_A = indicator, only
+         l1 = 0 radials, S_00 constant, 16π²·S_00 = 8π√π)
+   C01e  the strided (lam, mu) loops of type 1 visit exactly the entries of the type-1 table that makeW writes
    The contraction algebra shared with C07/C09 is in Props/C07.lean and Props/C09.lean. -/
 import Ecpint.Props.C01a
 import Ecpint.Props.C01b
 import Ecpint.Props.C01c
+import Ecpint.Props.C01d
+import Ecpint.Props.C01e
